@@ -201,7 +201,7 @@ def main(tier, only_replay=None):
     #    in place, the same lines pasted from a macro): if the scan stage rejects the written lines for their context, the
     #    pasted ones must not be accepted
     import c07
-    pp = [(nm, inl, mcr) for nm, inl, mcr in c07.twice_pairs() if nm.startswith("paste_in_")]
+    pp = [(nm, inl, mcr) for nm, inl, mcr in c07.twice_pairs() if nm.startswith(("paste_in_", "paste_ok_"))]
     pobs = harness("run", [{"id": "pi%d" % k, "files": {"main.jst": b64(inl)}, "root": "main.jst"} for k, (nm, inl, mcr) in enumerate(pp)] +
                    [{"id": "pm%d" % k, "files": {"main.jst": b64(mcr)}, "root": "main.jst"} for k, (nm, inl, mcr) in enumerate(pp)])
     for k, (nm, inl, mcr) in enumerate(pp):
@@ -209,6 +209,11 @@ def main(tier, only_replay=None):
         chk.evaluations += 1
         chk.traces += 1
         chk.nontrivial.add("paste:" + nm)
+        if nm.startswith("paste_ok_") and a["outcome"] == "ok" and (b["outcome"] != "ok" or json.loads(a["json"]) != json.loads(b["json"])):
+            sig = {"devs": "none", "matches_impl": "no", "what": "pasted lines land elsewhere"}
+            chk.violation("lines that are accepted where they are written (%s) are not placed there when a macro brings them: %s | macro form:\n%s" % (
+                nm, "rejected: %r" % b["err"]["msg"] if b["outcome"] == "error" else "another catalog", mcr),
+                {"kind": "paste_pair", "name": nm, "inlined": inl, "macro_form": mcr, "signature": sig}, sig)
         if a["outcome"] == "error" and "scan" not in a["stages"] and b["outcome"] == "ok":
             sig = {"devs": "none", "matches_impl": "no", "what": "pasted lines leave an open parenthesis"}
             chk.violation("the lines written in place are rejected by the scan stage (%r) but the same lines pasted from a macro are accepted (%s) | macro form:\n%s" % (
@@ -232,6 +237,8 @@ def replay(path):
                             {"id": "b", "files": {"main.jst": b64(rp["macro_form"])}, "root": "main.jst"}])
         chk.evaluations = 1
         if o["a"]["outcome"] == "error" and "scan" not in o["a"]["stages"] and o["b"]["outcome"] == "ok":
+            chk.violation("reproduced", rp, rp.get("signature"))
+        if rp["name"].startswith("paste_ok_") and o["a"]["outcome"] == "ok" and (o["b"]["outcome"] != "ok" or json.loads(o["a"]["json"]) != json.loads(o["b"]["json"])):
             chk.violation("reproduced", rp, rp.get("signature"))
         return chk.finish()
     run_docs(chk, [{"doc": rp["doc"], "out": rp["expected"], "nl": rp.get("nl", "\n"), "impl": {"v": "", "at": 0, "par": [], "devs": []}}], "r")
